@@ -197,10 +197,19 @@ def run_schedule(ctx, strategy, plan, inj, line_p, rng, tag, case, dfs=False):
             # blocked on an event (the zone lock is free), a reader must complete without any other thread moving
             if solo["bad"] is not None or rng.random() > 0.15:
                 return
-            lock = z._version_lock
-            if getattr(lock, "locked_by", None) is not None:
+            # the zone's lock(s) are found by type, not by attribute name; "a write transaction is open" is taken from
+            # the client-side log (between a writer's "admit" and "end" entries it is certainly open)
+            locks = [v for v in vars(z).values() if isinstance(v, S.ShimLock)]
+            if not locks or any(l.locked_by is not None for l in locks):
                 return
-            if z._write_txn is None:
+            open_now = False
+            for e in reversed(s.events):
+                if e[1] == "admit":
+                    open_now = True
+                    break
+                if e[1] == "end":
+                    break
+            if not open_now:
                 return
             if not all(t.finished or t.blocked or t.why.startswith("client:") for t in s.threads):
                 return
@@ -218,7 +227,7 @@ def run_schedule(ctx, strategy, plan, inj, line_p, rng, tag, case, dfs=False):
         except S.Deadlock as e:
             ctx.violation(f"deadlock-or-lost-wakeup:{tag}", f"{e}; last events {sc.events[-10:]}", dict(case, choices=sc.choices[:400]))
             return sc
-        except S.StepLimit as e:
+        except (S.StepLimit, S.Stall) as e:
             ctx.mark_inconclusive(f"schedule exceeded step limit: {e}")
             return sc
         finally:
